@@ -4,7 +4,7 @@ from . import common, symobs, engine, gen
 from .symobs import call
 
 VERSION = {'none': None, 'int': 5, 'str_int': '5', 'micro_upper': 'M4', 'micro_lower': 'm4', 'zero': 0, 'neg': -1, 'big': 41,
-           'str_bad': 'm5', 'str_junk': 'x', 'str_big': '41'}
+           'str_bad': 'm5', 'str_junk': 'x', 'str_big': '41', 'str_zero': '0', 'str_neg': '-1', 'str_neg3': '-3'}
 VERSION_CANON = {'str_int': 5, 'micro_lower': 'M4'}
 ERROR = {'none': None, 'M': 'M', 'm': 'm', 'H': 'H', 'h': 'h', 'bad': 'x', 'empty': ''}
 MODE = {'none': None, 'canon': 'byte', 'upper': 'BYTE', 'mixed': 'Byte', 'bad': 'foo'}
